@@ -72,7 +72,7 @@ func (o GenOpts) FName(fi int) string {
 
 func RandOpts(r *Rng, nd int, idbase string) GenOpts {
 	return GenOpts{NDocs: nd, IDBase: idbase, NoLocs: r.Chance(4), Freq1: r.Chance(4),
-		NFields: 1 + r.Intn(len(FieldNames)), VocabN: 2 + r.Intn(len(Vocab)-1), DVMask: r.Intn(128),
+		NFields: 1 + r.Intn(len(FieldNames)), VocabN: 2 + r.Intn(len(Vocab)-1), DVMask: r.Intn(256),
 		LongAP: r.Chance(6), FixedFields: r.Chance(3)}
 }
 
@@ -107,7 +107,8 @@ func genTok(r *Rng, o GenOpts, term string, compNames []string) Tok {
 					l.AP = append(l.AP, uint64(r.Intn(5)))
 				}
 			}
-			if len(compNames) > 0 {
+			if len(compNames) > 0 && r.Intn(4) != 0 {
+				// an occurrence taken from a source field; otherwise the composite field's own occurrence
 				l.Field = compNames[r.Intn(len(compNames))]
 			}
 			t.Locs = append(t.Locs, l)
@@ -118,7 +119,7 @@ func genTok(r *Rng, o GenOpts, term string, compNames []string) Tok {
 
 func genField(r *Rng, o GenOpts, fi int) Field {
 	name := o.FName(fi)
-	f := Field{Name: name, Typ: byte('a' + r.Intn(3))}
+	f := Field{Name: name, Typ: byte('a' + r.Intn(3)), TV: r.Intn(3) != 0}
 	if r.Bool() {
 		f.Stored = true
 		n := r.Intn(6)
@@ -185,7 +186,9 @@ func GenBatch(r *Rng, o GenOpts) Batch {
 				id += strings.Repeat("k", n-len(id))
 			}
 		}
-		d := Doc{Fields: []Field{IDField(id)}}
+		idf := IDField(id)
+		idf.DV = o.DVMask&128 != 0 // _id itself indexed with doc values
+		d := Doc{Fields: []Field{idf}}
 		names := map[string]bool{}
 		if o.FixedFields {
 			for fi := 0; fi < o.NFields; fi++ {
@@ -226,7 +229,7 @@ func GenBatch(r *Rng, o GenOpts) Batch {
 				ns = append(ns, n)
 			}
 			sort.Strings(ns)
-			cf := Field{Name: "_all", Typ: 'c'}
+			cf := Field{Name: "_all", Typ: 'c', TV: r.Bool()}
 			if o.DVMask&64 != 0 {
 				cf.DV = true
 			}
@@ -266,6 +269,14 @@ func GenBatch(r *Rng, o GenOpts) Batch {
 	return b
 }
 
+// BoundaryTerm names the k-th term of a boundary batch; the last one is the empty term.
+func BoundaryTerm(k, n int) string {
+	if k == n-1 && n > 1 {
+		return ""
+	}
+	return fmt.Sprintf("t%d", k)
+}
+
 // GenBoundaryBatch builds a large batch in which chosen terms have exactly the requested numbers
 // of postings (chunk-size boundaries of modes 1025/1026: 1023, 1024, 1025, 2047, 2048, ...).
 // Field "tag" is multi-valued so that instance counts exceed document counts.
@@ -294,7 +305,7 @@ func GenBoundaryBatch(r *Rng, ndocs int, cards []int, withLocs bool) Batch {
 		var toks1, toks2 []Tok
 		for k := range cards {
 			if member[k][i] {
-				term := fmt.Sprintf("t%d", k)
+				term := BoundaryTerm(k, len(cards))
 				t := Tok{Term: term, Freq: uint64(1 + (i+k)%3)}
 				if withLocs && (i+k)%2 == 0 {
 					t.Locs = []Loc{{Pos: uint64(i % 7), Start: uint64(i), End: uint64(i + k + 1)}}
